@@ -114,7 +114,7 @@ def replay_history(fa, hist, events, beh, ctx_kwargs=None):
             if kind == "symbol":
                 r = ctx.symbol(req["name"], req["ty"])
             elif kind == "constant":
-                value = pyvalue(req["value"], nan_objs)
+                value = req["pyvalue"] if "pyvalue" in req else pyvalue(req["value"], nan_objs)
                 like = by_model[req["like"]]
                 ev["val"] = encode_value(value, vident)
                 ev["like"] = ident(like)
@@ -172,6 +172,172 @@ def simulated_histories(n, depth, seed, chk):
     return hs
 
 
+def _fl(ty):
+    return {"float": float, "float16": numpy.float16, "float32": numpy.float32, "float64": numpy.float64}[ty]
+
+
+def _frombits(ty, n):
+    dt = "float64" if ty == "float" else ty
+    v = bits.from_bits_int(n % (1 << bits.WIDTH[dt]), dt)
+    return float(v) if ty == "float" else v
+
+
+def _bitsof(ty, v):
+    dt = "float64" if ty == "float" else ty
+    return bits.fbits_int(numpy.dtype(dt).type(v), dt)
+
+
+def make_pairs(fam, ty, k, rng):
+    """Concretise a ValuePairs shape into k pairs (a, b) of different Python values."""
+    out = []
+    isf = ty in ("float", "float16", "float32", "float64")
+    w = bits.WIDTH["float64" if ty == "float" else ty] if isf else 0
+
+    def rnd_finite():
+        while True:
+            v = _frombits(ty, rng.getrandbits(w))
+            if numpy.isfinite(v):
+                return v
+
+    for i in range(k):
+        a = b = None
+        if fam == "neighbour":
+            n = rng.getrandbits(w) if i % 3 else [0, 1 << (w - 1), 1, (1 << (w - 2)), (1 << (w - 2)) - 1][i % 5]
+            a, b = _frombits(ty, n), _frombits(ty, n + 1)
+        elif fam == "regroup":
+            # two bit patterns whose per-byte renderings without zero padding coincide:
+            # bytes (0x0h, 0xlm) and (0xhl, 0x0m)
+            nb = w // 8
+            j = rng.randrange(nb - 1)
+            h, l, m = rng.randrange(1, 16), rng.randrange(16), rng.randrange(16)
+            base = rng.getrandbits(w) & ~(0xFFFF << (8 * j))
+            if j == nb - 2:  # keep exponent bits finite: clear the top bit pair
+                h = rng.randrange(1, 4)
+            a = _frombits(ty, base | ((h << 8 | l << 4 | m) << (8 * j)))
+            b = _frombits(ty, base | ((h << 12 | l << 8 | m) << (8 * j)))
+        elif fam == "sign":
+            if ty == "int":
+                a = rng.choice([1, 2, 7, 2 ** 40]); b = -a
+            elif ty == "complex":
+                a = complex(rng.choice([0.0, 1.5]), rng.choice([0.0, 2.0])); b = complex(-a.real, a.imag) if i % 2 else complex(a.real, -a.imag)
+            else:
+                a = rnd_finite() if i % 4 else _frombits(ty, 0); b = -a
+        elif fam == "same_int":
+            base = float(rng.randrange(-5, 6))
+            fr = rng.choice([0.25, 0.5, 0.75])
+            if ty == "complex":
+                a, b = complex(base, 1.0), complex(base, 1.5)
+            else:
+                t = _fl(ty)
+                a, b = t(abs(base)), t(abs(base) + fr)
+        elif fam == "same_hash":
+            if ty == "int":
+                a, b = rng.choice([(-1, -2), (0, 2 ** 61 - 1), (1, 2 ** 61), (5, 5 + 2 ** 61 - 1)])
+            else:
+                t = _fl(ty)
+                cands = [(t(1.0), t(2.0 ** 61)), (t(-1.0), t(-2.0)), (t(0.5), t(2.0 ** 60)), (t(3.0), t(3.0 + 2.0 ** 61) if ty != "float32" else t(2.0 ** 61))]
+                a, b = cands[i % len(cands)]
+        elif fam == "same_digits":
+            t = _fl(ty)
+            x = rnd_finite()
+            a = x
+            # nearby value agreeing in the first decimal digits: a few ulps away
+            b = _frombits(ty, _bitsof(ty, x) + rng.choice([2, 3, 5, 16, 100]))
+        elif fam == "cross_type":
+            vals = {"float": [1.0, 0.0, 2.0], "float16": [numpy.float16(1), numpy.float16(0)], "float32": [numpy.float32(1), numpy.float32(0.5)],
+                    "float64": [numpy.float64(1), numpy.float64(0.5)], "int": [1, 0, 2], "complex": [1 + 0j, 0j], "bool": [True, False]}
+            a = rng.choice(vals[ty])
+            others = [v for t2, vs in vals.items() if t2 != ty for v in vs if v == a and type(v) is not type(a)]
+            if not others:
+                continue
+            b = rng.choice(others)
+        elif fam == "exp_shift":
+            x = rnd_finite()
+            a, b = x, _fl(ty)(x * 2) if ty != "float" else x * 2
+        elif fam == "byte_perm":
+            n = rng.getrandbits(w) & ~(1 << (w - 2))  # keep it finite
+            nb = w // 8
+            i0, i1 = rng.sample(range(nb), 2) if nb > 2 else (0, 1)
+            b0, b1 = (n >> (8 * i0)) & 255, (n >> (8 * i1)) & 255
+            m = n & ~(255 << (8 * i0)) & ~(255 << (8 * i1)) | (b1 << (8 * i0)) | (b0 << (8 * i1))
+            a, b = _frombits(ty, n), _frombits(ty, m)
+        if a is None or b is None:
+            continue
+        try:
+            if isf and not (numpy.isfinite(a) and numpy.isfinite(b)):
+                continue
+        except TypeError:
+            pass
+        same_bits = type(a) is type(b) and encode_value(a, Ident()) == encode_value(b, Ident())
+        if not same_bits:
+            out.append((a, b))
+    return out
+
+
+def pair_histories(seed, k, chk):
+    """Histories built from the TLC-enumerated ValuePairs shapes."""
+    r = tlc.run("ValuePairs", "ValuePairs.cfg", workers=1)
+    if not r.ok:
+        raise tlc.MachineryError("ValuePairs export failed:\n" + r.out[-1500:])
+    chk.add_mc("ValuePairs.cfg", r)
+    shapes = [(h[1], h[2]) for h in tlaval.fast_tuples(r.out, "H")]
+    rng = random.Random(seed)
+    hs, meta = [], []
+    nov = dict(pt="", num="", neg=0, obj=0)
+
+    def sym(name, ty, res):
+        return dict(req=dict(kind="symbol", name=name, ty=ty, value=nov, like=0, ops=[]), res=res)
+
+    def const(v, like, res):
+        return dict(req=dict(kind="constant", name="", ty="", value=nov, pyvalue=v, like=like, ops=[]), res=res)
+
+    def op(kind, ops, res):
+        return dict(req=dict(kind=kind, name="", ty="", value=nov, like=0, ops=ops), res=res)
+
+    for fam, ty in sorted(shapes):
+        for a, b in make_pairs(fam, ty, k, rng):
+            symty = {"float": "float64", "int": "integer64", "complex": "complex128", "bool": "boolean"}.get(ty, ty)
+            for first, second in ((a, b), (b, a)):
+                hs.append([sym("x", symty, 1), const(first, 1, 2), const(second, 1, 3), const(first, 1, 2),
+                           op("multiply", [1, 2], 4), op("multiply", [1, 3], 5), op("subtract", [5, 4], 6)])
+                meta.append((fam, ty))
+    chk.cov["value_pair_shapes"] = len(shapes)
+    chk.cov["value_pair_histories"] = len(hs)
+    return hs
+
+
+def portable(hist):
+    """history with direct Python values made JSON-serialisable (type name + hex bits)"""
+    out = []
+    for h in hist:
+        req = dict(h["req"])
+        if "pyvalue" in req:
+            v = req.pop("pyvalue")
+            req["pyvalue_repr"] = [type(v).__name__, repr(v), v.hex() if isinstance(v, float) else (hex(int(numpy.asarray(v).view("u%d" % numpy.asarray(v).itemsize))) if isinstance(v, numpy.floating) else repr(v))]
+        out.append(dict(req=req, res=h["res"]))
+    return out
+
+
+def unportable(hist):
+    out = []
+    for h in hist:
+        req = dict(h["req"])
+        if "pyvalue_repr" in req:
+            tn, rp, hx = req.pop("pyvalue_repr")
+            if tn == "float":
+                req["pyvalue"] = float.fromhex(hx)
+            elif tn in ("float16", "float32", "float64"):
+                req["pyvalue"] = bits.from_bits_int(int(hx, 16), tn)
+            elif tn == "int":
+                req["pyvalue"] = int(rp)
+            elif tn == "bool":
+                req["pyvalue"] = rp == "True"
+            elif tn == "complex":
+                req["pyvalue"] = complex(rp)
+        out.append(dict(req=req, res=h["res"]))
+    return out
+
+
 def key_of(ev, clauses):
     v = ev["val"]
     what = ev["kind"]
@@ -193,10 +359,11 @@ def run(tier, seed):
     hists = export_histories("HIST_Context.cfg", chk, steps=3 if tier == "quick" else 4)
     hists += export_histories("HIST_ContextSel.cfg", chk, steps=4)
     hists += simulated_histories(1500 if tier == "quick" else 40000, 12, seed + 1, chk)
+    hists += pair_histories(seed + 2, 40 if tier == "quick" else 1500, chk)
     events = []
     for i, h in enumerate(hists):
         replay_history(fa, h, events, i)
-    chk.sample(dict(history=hists[len(hists) // 3], events=[e for e in events if e["beh"] == len(hists) // 3][:8]))
+    chk.sample(dict(history=portable(hists[len(hists) // 3]), events=[e for e in events if e["beh"] == len(hists) // 3][:8]))
     # U3
     res = tlc.validate_events("Trace_Context", "Trace_Context.cfg", events, starts=lambda e: e["op"] == "Begin", name="ctx")
     chk.add_trace("Trace_Context", res, len(events), ntraces=len(hists))
@@ -204,7 +371,7 @@ def run(tier, seed):
     for eid, clauses in res["fails"]:
         ev = byid[eid]
         chk.fail(key_of(ev, clauses), "history %d: %s -> clauses %s" % (ev["beh"], json.dumps(ev)[:400], clauses),
-                 dict(history=hists[ev["beh"]], failing_event=ev, clauses=clauses))
+                 dict(history=portable(hists[ev["beh"]]), failing_event=ev, clauses=clauses))
     drift = [byid[i] for i, w in res["notes"] if "drift" in w]
     if drift:
         chk.drift_note("FAContext key-scheme model predicts a different object than the code on %d constructions, e.g. %s"
@@ -212,7 +379,7 @@ def run(tier, seed):
     chk.assumptions += ["NaN constants unconstrained (statement's 'same value' is ambiguous for NaN)",
                         "like of a constant constrained by its type (must-differ) / its normalised object (must-be-same)",
                         "object identity observed with `is`; values logged as type name + raw float64 bits"]
-    nontrivial = len({json.dumps(h) for h in hists if len({x["res"] for x in h}) < len(h)})
+    nontrivial = len({json.dumps(portable(h)) for h in hists if len({x["res"] for x in h}) < len(h)})
     return chk.finish(rule="construction histories enumerated by TLC from FAContext (all of the stated length over the "
                            "stated alphabets) plus -simulate walks; non-trivial = distinct histories in which some "
                            "construction returned an already existing object",
@@ -224,7 +391,7 @@ def replay(path):
     with open(path) as f:
         rp = json.load(f)["replay"]
     events = []
-    replay_history(fa, rp["history"], events, 0)
+    replay_history(fa, unportable(rp["history"]), events, 0)
     res = tlc.validate_events("Trace_Context", "Trace_Context.cfg", events, stateful=True)
     for e in events:
         print(json.dumps(e))
